@@ -488,6 +488,9 @@ class HelicityAmplitudeBuilder:
             sequential_graphs = _perform_combinatorics(transition)
             for graph in sequential_graphs:
                 first_transition = _freeze(graph)
+                # symmetrization over identical particles can result in a topology
+                # that is not in the reaction, but its kinematic variables are needed
+                self.adapter.register_topology(first_transition.topology)
                 expression = self.__formulate_sequential_decay(first_transition)
                 sequential_expressions.append(expression)
 
